@@ -55,6 +55,18 @@ CHECKS = {
     "C01": ("proof (partial by nature): Lean theorems over the reals: reversibility of the Metropolis/Hastings kernel on any finite state space (metropolis/hastings_detailed_balance, detailed_balance_stationary, stationary_forever, kernel_markov, also for the executable model), accept_probability (Lebesgue measure of the accepting draws = min(1,exp e)), the model's exponents are log-ratios of the textbook densities (canonical/hamiltonian/isobaric_ratio, gc_ratio, gc_pair_inverse, gc_detailed_balance in scaled and configuration-density form, gc_poisson_ratio), finite-skeleton chains built from Crit.* keep the textbook densities (canonical/isobaric/gc_chain_stationary, hypotheses discharged by the cited C10/C03 theorems), and the closed-form averages (gamma_mean => (N+1)kT/P, dipole_mean = coth x - 1/x, harmonic_energy_3N = (3N/2)kT, poisson_of_ratio + mean + variance); tied to the code by the C02/C10/C03 correspondences and by the detailed-balance residual measured to 1e-8 on the real moves/criteria/drivers",
             "§6 C01", "Lean 4 + Mathlib (Finset sums, Gamma/Gaussian integrals, FTC, Fubini, HasSum) + acceptance probabilities of the real criteria by bisection on a scripted uniform + fixed-seed srun() ensemble runs with batch-means error bars (6 sigma on three seeds)",
             "the limit of the chain is not exhibited: irreducibility/aperiodicity, convergence of finite runs, PCG64 quality, Haar-uniformity of the normalised Gaussian quaternion not verified; Lean does not identify the Python chain with a Fintype kernel (modelling step)"),
+    "C14": ("proof (partial): Lean theorems over the reals about a line-by-line model of Verlet.integrate / maxwell_boltzmann_distribution / HamiltonianDisplacementMove.attempt_displacement: exact time-reversibility for every force function, masses>0, dt!=0, any step count; exact shadow-energy conservation and a uniform O(dt^2) energy bound for harmonic wells (general smooth potentials only numerically: order fit); N(0,m kT) law of refreshed momenta; forced temperature within T*1e-15/T_real; last_kinetic_energy = KE of the momenta drawn in the successful attempt. Tied to the code by differential runs of the real integrator/move/driver against the Float model, reversal and dt-ladder experiments (harmonic, quartic, Morse, EMT)",
+            "§6 C14", "Lean 4 theorems (induction on steps, field identities, Mathlib gaussianReal/variance) + differential correspondence and property oracles on the real classes",
+            "energy-error order for all smooth potentials is not proved (harmonic only); reversal tolerance 1e-9*scale plus the rounding budget eps*steps*m|q|/dt of the coded momentum recomputation"),
+    "C12": ("proof: Lean theorems over the reals about models of ASE FixAtoms/FixCom and quansino FixRot and of displacement / composite / Hamiltonian / force-bias trials: fixed atoms never move and the centre of mass never drifts under any history of accepted/rejected/vetoed trials (any operation, force field, dt, step count, delta, T); FixRot leaves zero angular momentum (invertible inertia tensor; also proved from masses>0 + non-collinear positions) and unchanged linear momentum. Tied to the code by replaying every trial of real Canonical / HamiltonianCanonical / ForceBias histories (50-500 trials) in the Float model and by oracles on the real atoms",
+            "§6 C12", "Lean 4 theorems (invariant induction over histories, 3x3 linear algebra, Mathlib crossProduct/det) + per-trial differential correspondence with the real drivers",
+            "one constraint kind at a time; LAPACK eigen-route of FixRot modelled by a direct inverse; COM rounding drift bounded by the oracle (1e-9*size) only"),
+    "C08": ("proof: Lean theorems over the class table and import graph regenerated from the live package on every run (all_specs_wf, settings_preserved, imports_ok by decide +kernel) lifted to all values and all nestings by roundtrip_of_wf (mutual induction over object trees) on a model of every to_dict/from_dict and of CPython import semantics; translators validated every run against real decode(encode(to_dict()))->from_dict round trips (sentinel and falsy values, mutated dictionaries, depth<=3) and real fresh-interpreter imports of all public modules",
+            "§6 C08", "translator-generated Lean tables + kernel evaluation + induction; differential correspondence of predicted vs real round-trip outcome",
+            "leaf values abstract (ASE JSON identity on leaves exercised, not proved); tunables rule/exclusions as recorded in gen_classes.py; modules outside the package assumed importable"),
+    "C07": ("proof: Lean theorems specs_wf and restart_file_is_to_dict over the regenerated class table (decide +kernel: todict attribute-lookup model), load_save_equiv, equiv_bisim, restart_continues (all k<=n, induction) for any deterministic step that factors through the serialised state; tied to the code by restarting the real drivers from the file the RestartObserver wrote at EVERY step k (7 drivers, 26 move tables incl. masked/composite operations, composite and molecular exchange, falsy settings, seed 0) and comparing atoms, energies, history, labels, counters, generator state bitwise",
+            "§6 C07", "translator-generated specs + Lean induction + exhaustive-in-k restart oracle on real files",
+            "step abstract (Factors hypothesis), tested move by move; energies bitwise with a pure numpy calculator, 1e-10 with EMT; calculator, observers and move_history are documented transients"),
 }
 
 NOT_APPLICABLE = {}
